@@ -56,7 +56,10 @@ MANIFEST = {
             "allocation skeleton of the reliable-transport receive path (coap_read_session's stream branch: partial_pdu allocated "
             "when the header is complete, stored in the session, grown to the announced size, detached / dispatched / deleted when "
             "complete, deleted by coap_session_disconnected_lkd on every failure exit and by coap_session_free) -- "
-            "recv_at_most_one_partial, recv_pdu_released_once, recv_no_leak_on_failure, recv_new_session_starts_clean; tied by "
+            "recv_at_most_one_partial, recv_pdu_released_once, recv_no_leak_on_failure, recv_new_session_starts_clean, and SERVED: with "
+            "memory available the skeleton simulates C05's stream reader (recv_dispatches_what_reader_delivers: what reaches "
+            "coap_dispatch is what the reader delivers for every cut; recv_dispatches_spec_frames: = the frames the specification finds "
+            "in the bytes; recv_served_after_failure: after ANY past a new session gets every message dispatched), recv_ledger_replays; tied by "
             "`arecv` scripts (real coap_read_session of a TCP session fed by a chunk feeder, coap_dispatch recorded through the "
             "source hook) under every single failing request index. NOT proved, enumerated only (OBSERVATION of the real code against the property text, no theorem): the 19 scenarios "
             "uri, pdu, request/response, Block1, Block2, observe, set-up/tear-down, OSCORE, 5.08, /.well-known/core of a 17-resource "
